@@ -15,9 +15,10 @@
    divergence / Stokes theorem.  The integral statements of Props/C14.v are therefore
    one-dimensional (a straight path on the axis of a current loop), everything else is in
    differential form or a jump condition at a magnet surface. *)
-From Coq Require Import Reals.
+From Coq Require Import Reals List.
 From Coquelicot Require Import Coquelicot.
 From MV Require Import Model.CoreNum Model.CoreModel Model.CoreSpec.
+Import ListNotations.
 Open Scope R_scope.
 
 (* replace coordinate j of o by t *)
@@ -63,3 +64,39 @@ Definition radial (t : R) (o : RV3) : RV3 := Rvscale t o.
 
 (* H_z on the axis of a Circle as a function of z (on-axis branch of BHJM_circle) *)
 Definition circ_axis (d cur : R) : R -> R := fun z => circle_axis_Hz NumR z d cur.
+
+(* ------------------------------------------------------------------ Polyline
+   current_vertices_field / Polyline: the field of a vertex chain is the sum over consecutive
+   vertex pairs of the segment field (BHJM_current_polyline -> current_polyline_Hfield, modelled
+   by polyline_H of CoreModel.v; zero-length segments contribute 0).  Generic in the numeric
+   signature so that the same definition is executed with floats in the correspondence. *)
+Fixpoint poly_sum_gen (N : Num) (cur : carrier N) (vs : list (V3 N)) (o : V3 N) : V3 N :=
+  match vs with
+  | v1 :: ((v2 :: _) as tl) => vadd N (polyline_H N o v1 v2 cur) (poly_sum_gen N cur tl o)
+  | _ => zero3 N
+  end.
+Definition poly_sum (cur : R) (vs : list RV3) : RV3 -> RV3 := fun o => poly_sum_gen NumR cur vs o.
+
+(* textbook closed form of the H-field of a straight segment p1 -> p2 carrying cur:
+   H = cur/(4 pi) * (e x a) / |e x a|^2 * (a.e/|a| - b.e/|b|),  a = o - p1, b = o - p2, e = p2 - p1;
+   seg_D a e = |e|^2 |a|^2 - (a.e)^2 = |e x a|^2 *)
+Definition seg_D (a e : RV3) : R := Rdot e e * Rdot a a - Rdot a e * Rdot a e.
+Definition seg_S (a e : RV3) : R :=
+  Rdot a e / sqrt (Rdot a a) - Rdot (Rvsub a e) e / sqrt (Rdot (Rvsub a e) (Rvsub a e)).
+Definition seg_H (cur : R) (p1 p2 o : RV3) : RV3 :=
+  Rvscale (cur / (4 * PI) * (seg_S (Rvsub o p1) (Rvsub p2 p1) / seg_D (Rvsub o p1) (Rvsub p2 p1)))
+          (Rcross (Rvsub p2 p1) (Rvsub o p1)).
+
+(* the observer is clear of the supporting line of the segment by more than the code's on-line
+   threshold: distance(o, line) / |p2 - p1| > 1e-15, and the segment is not degenerate *)
+Definition seg_clear (o p1 p2 : RV3) : Prop :=
+  p1 <> p2 /\
+  1 / 1000000000000000 * Rdot (Rvsub p2 p1) (Rvsub p2 p1) < sqrt (seg_D (Rvsub o p1) (Rvsub p2 p1)).
+Fixpoint poly_clear (o : RV3) (vs : list RV3) : Prop :=
+  match vs with
+  | v1 :: ((v2 :: _) as tl) => seg_clear o v1 v2 /\ poly_clear o tl
+  | _ => True
+  end.
+
+(* cur/(4 pi) * v/|v|^3 : the point-source term left at each end of an open chain *)
+Definition pointK (cur : R) (v : RV3) : RV3 := Rvscale (cur / (4 * PI) / (Rnorm v * Rdot v v)) v.
